@@ -331,6 +331,3 @@ func genJSON(r *lib.Rand) []byte {
 	}
 	return []byte(s)
 }
-
-// GenConfigForDebug exposes the configuration generator to scratch commands.
-func GenConfigForDebug(r *lib.Rand) string { return genConfig(r) }
